@@ -126,7 +126,7 @@ def run(tier, seed, replay_path=None):
         chunks = [calls[i:i + 250] for i in range(0, len(calls), 250)]
         cases = [build_calls((i, ch)) for i, ch in enumerate(chunks)]      # one process: one cache, one history
         from decaylanguage.utils.particleutils import charge_conjugate_name
-        o.notes["cache_info_after_calls"] = str(charge_conjugate_name.cache_info())
+        o.notes["cache_info_after_calls"] = str(getattr(charge_conjugate_name, "cache_info", lambda: "no cache_info")())
         o.notes["name_calls"] = len(calls)
         # final states / modes / tables
         known_dec = [n for n in evt if decio.label_ok(n)]
